@@ -25,14 +25,14 @@ func levelAModels(thorough bool) []sysCfg {
 	user := "prio0 cancel "
 	slowCore := " slow-detach slow-list slow-lock slow-req-unlock slow-kill"
 	ms := []sysCfg{
-		// one container, one instance: every fault class, late answers, operator actions, restart; one fault
-		{Name: "1c-1i-f1", MaxCtr: 1, Cap: 1, Types: "A", Prios: "1", Events: user + allFaults + allSlow, Budget: 1, Depth: 16},
+		// (cheapest models first: a time cap on a loaded machine then cuts the most expensive ones)
+		// a container put on hold while its crunch-run is alive (SIGTERM "priority=0"), then released by
+		// its user (prio1) while the kill is still going on: a kill attempt that fails (SIGTERM ignored /
+		// process still alive when `crunch-run --kill` returns) must leave the process registered, so the
+		// container is not re-locked and started next to it
+		{Name: "1c-1i-hold", MaxCtr: 1, Cap: 1, Types: "A", Prios: "1", Events: "prio0 prio1 linger killfail", Budget: 1, Depth: 15},
 		// an idle instance of an earlier dispatcher exists: late probe / start / lock answers against it
 		{Name: "1c-pre-f1", MaxCtr: 1, Cap: 1, Types: "A", Prios: "1", PreInst: "A", Events: "cancel crash restart" + slowCore, Budget: 1, Depth: 12},
-		// two containers of different priority competing for one instance, user actions, no faults
-		{Name: "2c-1i-f0", MaxCtr: 2, Cap: 1, Types: "A", Prios: "12", Events: user, Budget: 0, Depth: 10},
-		// two containers, two instance types, two instances; crash / restart / hold / drain, one fault
-		{Name: "2c-2i-f1", MaxCtr: 2, Cap: 2, Types: "AB", Prios: "1", Events: "cancel crash restart hold drain", Budget: 1, Depth: 8},
 		// two idle instances, probes every third tick, cloud list every seventh: a start command that reaches the VM late
 		// overlapping a probe whose answer is late (two late messages)
 		{Name: "1c-pre2-late2", MaxCtr: 1, Cap: 2, Types: "A", Prios: "1", PreInst: "AA", Events: "slow-req-detach slow-list slow-detach", Budget: 2, Depth: 12, ProbeTicks: 3, SyncTicks: 7},
@@ -43,16 +43,17 @@ func levelAModels(thorough bool) []sysCfg {
 		// replaced, the replacement hits a quota error and a Locked container is unlocked while a poll
 		// that already listed it as Locked is under way (late answer); then the other instance becomes free
 		{Name: "2c-2i-poll3", MaxCtr: 2, Cap: 2, Types: "A", Prios: "1", Events: "createquota slow-poll-queued", Budget: 2, Depth: 15, PollTicks: 3},
-		// a container put on hold while its crunch-run is alive (SIGTERM "priority=0"), then released by
-		// its user (prio1) while the kill is still going on: a kill attempt that fails (SIGTERM ignored /
-		// process still alive when `crunch-run --kill` returns) must leave the process registered, so the
-		// container is not re-locked and started next to it
-		{Name: "1c-1i-hold", MaxCtr: 1, Cap: 1, Types: "A", Prios: "1", Events: "prio0 prio1 linger killfail", Budget: 1, Depth: 15},
+		// one container, one instance: every fault class, late answers, operator actions, restart; one fault
+		{Name: "1c-1i-f1", MaxCtr: 1, Cap: 1, Types: "A", Prios: "1", Events: user + allFaults + allSlow, Budget: 1, Depth: 16},
 		// two containers, capacity of one instance: the higher-priority late-comer hits the capacity quota
 		// error and runQueue's at-quota sweep unlocks the lower-priority container whose crunch-run is
 		// already alive (still Locked); sync sends SIGTERM "state=Queued"; the late-comer is cancelled;
 		// with a failed kill attempt the re-queued container must not be re-locked and started again
 		{Name: "2c-1i-requeue", MaxCtr: 2, Cap: 1, Types: "A", Prios: "12", Events: "cancel linger killfail", Budget: 1, Depth: 11},
+		// two containers of different priority competing for one instance, user actions, no faults
+		{Name: "2c-1i-f0", MaxCtr: 2, Cap: 1, Types: "A", Prios: "12", Events: user, Budget: 0, Depth: 10},
+		// two containers, two instance types, two instances; crash / restart / hold / drain, one fault
+		{Name: "2c-2i-f1", MaxCtr: 2, Cap: 2, Types: "AB", Prios: "1", Events: "cancel crash restart hold drain", Budget: 1, Depth: 8},
 	}
 	if thorough {
 		ms = []sysCfg{
